@@ -1,4 +1,5 @@
 import Splipy.Lemmas.C10Reach
+import Splipy.Lemmas.C10Access
 import Mathlib.Data.Rat.Floor
 
 /-!
@@ -15,6 +16,11 @@ by the objects the call created; `History.run` executes a list of instructions o
 
 What is proved.
 * `C10_wfB_iff`: the executable check decides `WellFormed`.
+* `C10_accessors_consistent`, `C10_reconstructible`, `C10_evaluable_on_domain`: for every well-formed object the
+  accessors `len / shape / order / knots / start / end`, flat (first-index-fastest) and multi-index `__getitem__` /
+  `__setitem__` (`Model/Accessors.lean`) are mutually consistent, `clone()` and
+  `cls(*bases, controlpoints, rational, raw=True)` give an equal well-formed object, and `evaluate` succeeds with the
+  right shape on every parameter grid of the closed domain.
 * Constructor: `C10_constructor_rejects` (the exact rejection condition of `BSplineBasis.__init__`),
   `C10_constructor_accepts_otherwise`, `C10_valid_accepted` (no false rejection), and the known gap
   `C10_constructor_gap` (vectors that are accepted although they are not periodic knot vectors).
@@ -52,6 +58,100 @@ theorem C10_wfB_iff (o : Obj K) : o.wfB = true ↔ o.WellFormed := Obj.wfB_iff o
 
 /-- The same for a basis. -/
 theorem C10_validB_iff (b : Basis K) : b.validB = true ↔ b.Valid := Basis.validB_iff b
+
+/-! ## Accessors, clone / re-construction, evaluation on the whole domain -/
+
+open FileIO (IdxOk ravelC ravelF unravelF) in
+/-- **The accessors of a well-formed object are mutually consistent** (`Model/Accessors.lean` mirrors
+    `shape`, `__len__`, `order()`, `knots()`, `start()`, `end()`, `__getitem__`, `__setitem__` of `splineobject.py`):
+    (1) `shape` (read off the control array) is the list of `num_functions()` of the bases, `len` (computed from the
+    bases) is its product, `order/knots/start/end` read the bases, one entry per parametric direction, and
+    `shape[d] = len(knots(d, True)) - order(d) - (periodic+1)`;
+    (2) for a flat index `i < len`: its multi-index is `unravelF shape i` — FIRST index fastest
+    (`unravelF (n :: s) i = (i % n) :: unravelF s (i / n)`, `np.unravel_index(i, shape, order='F')`), a valid index whose
+    first-index-fastest position is `i` again; `obj[i]` is the control point with that multi-index: point number
+    `p = ravelC shape (unravelF shape i)` of the C-order array, `ncomp` numbers read at `p·ncomp + c`;
+    `obj[i - len] = obj[i]`; `obj[multi-index] = obj[i]`; assignment through the multi-index equals assignment through
+    the flat index, is read back by `obj[i]` and leaves every other control point alone;
+    (3) flat indices outside `[-len, len)` raise `IndexError`;  (4) `i ↦ p` is a bijection of `[0, len)`. -/
+theorem C10_accessors_consistent {o : Obj K} (h : o.WellFormed) :
+    (o.shapeAcc = o.counts ∧ o.len = o.shapeAcc.prod ∧
+      o.shapeAcc.length = o.pardim ∧ o.orderAcc.length = o.pardim ∧ o.knotsAcc.length = o.pardim ∧
+      o.startAcc.length = o.pardim ∧ o.endAcc.length = o.pardim ∧
+      ∀ d, d < o.pardim →
+        o.shapeAcc[d]? = some (o.basis d).numFunctions ∧ o.orderAcc[d]? = some (o.basis d).order ∧
+        o.knotsAcc[d]? = some (o.basis d).knots ∧ o.startAcc[d]? = some (o.basis d).start ∧
+        o.endAcc[d]? = some (o.basis d).stop ∧
+        o.shapeAcc.getD d 0
+          = (o.knotsAcc.getD d #[]).size - o.orderAcc.getD d 0 - ((o.basis d).periodic + 1).toNat ∧
+        (d < 3 → o.orderDir d = .ok (o.basis d).order ∧ o.knotsDir d = .ok (o.basis d).knots ∧
+          o.startDir d = .ok (o.basis d).start ∧ o.endDir d = .ok (o.basis d).stop)) ∧
+    (∀ i : ℕ, i < o.len →
+      IdxOk o.shapeAcc (unravelF o.shapeAcc i) ∧
+      ravelF o.shapeAcc (unravelF o.shapeAcc i) = i ∧
+      ravelC o.shapeAcc (unravelF o.shapeAcc i) < o.len ∧
+      o.getFlat (i : Int) = .ok (o.pointRow (ravelC o.shapeAcc (unravelF o.shapeAcc i))) ∧
+      (o.pointRow (ravelC o.shapeAcc (unravelF o.shapeAcc i))).size = o.ncomp ∧
+      (∀ c, c < o.ncomp → (o.pointRow (ravelC o.shapeAcc (unravelF o.shapeAcc i))).getD c 0
+          = o.cps.get (ravelC o.shapeAcc (unravelF o.shapeAcc i) * o.ncomp + c)) ∧
+      o.getFlat ((i : Int) - o.len) = o.getFlat (i : Int) ∧
+      o.getMulti ((unravelF o.shapeAcc i).map (fun j : ℕ => (j : Int)))
+        = .ok { shape := [o.ncomp], data := o.pointRow (ravelC o.shapeAcc (unravelF o.shapeAcc i)) } ∧
+      (∀ cp : Array K, o.setMulti ((unravelF o.shapeAcc i).map (fun j : ℕ => (j : Int))) cp
+        = o.setFlat (i : Int) cp) ∧
+      (∀ cp : Array K, cp.size = o.ncomp →
+        ∃ o', o.setFlat (i : Int) cp = .ok o' ∧ o'.bases = o.bases ∧ o'.cps.shape = o.cps.shape ∧
+          o'.rational = o.rational ∧ o'.cps.data.size = o.cps.data.size ∧ o'.getFlat (i : Int) = .ok cp ∧
+          ∀ j : ℕ, j < o.len → j ≠ i → o'.getFlat (j : Int) = o.getFlat (j : Int))) ∧
+    (∀ i : Int, i < -(o.len : Int) ∨ (o.len : Int) ≤ i → o.getFlat i = .error .index) ∧
+    (∀ i i' : ℕ, i < o.len → i' < o.len →
+      ravelC o.shapeAcc (unravelF o.shapeAcc i) = ravelC o.shapeAcc (unravelF o.shapeAcc i') → i = i') ∧
+    (∀ p, p < o.len → ∃ i, i < o.len ∧ ravelC o.shapeAcc (unravelF o.shapeAcc i) = p) :=
+  h.accessors_consistent
+
+/-- First index fastest, spelled out for a surface: flat index `i` of an `n₁ × n₂` net is the point
+    `(i mod n₁, (i / n₁) mod n₂)`. -/
+example (n1 n2 i : ℕ) : FileIO.unravelF [n1, n2] i = [i % n1, i / n1 % n2] := rfl
+
+/-- **Clone and re-construction**: `cls(*bases, controlpoints, rational, raw=True)` applied to the object's own bases,
+    control points and rational flag succeeds and returns an equal (hence well-formed) object; `clone()` is equal and
+    well formed.  (With `raw=True` the constructor neither validates nor reshapes — the content of this clause is that
+    nothing more than `bases`, `controlpoints`, `rational` makes up the state of an object.) -/
+theorem C10_reconstructible {o : Obj K} (h : o.WellFormed) :
+    (∃ o', Obj.construct o.bases o.cps o.rational = .ok o' ∧ o' = o ∧ o'.WellFormed) ∧
+    (∃ o', Obj.construct o.clone.bases o.clone.cps o.clone.rational = .ok o' ∧ o' = o ∧ o'.WellFormed) ∧
+    o.clone = o ∧ o.clone.WellFormed :=
+  ⟨h.construct, h.construct_clone, Obj.clone_eq o, h.clone⟩
+
+/-- **Evaluation on the whole domain**: for every tensor grid of parameters of the closed domain (`start ≤ t ≤ end` in
+    the non-periodic directions and at least one parameter there — `hne`: the real code raises `ValueError` for an
+    empty list in a non-periodic direction —, any real in the periodic ones) `evaluate` returns a value — an array of shape
+    `(len(p₁), …, len(p_d), dimension)` with exactly that many entries — for every parametric dimension.
+    `hsnap` (`Basis.SnapSafe`): no knot lies strictly outside the domain within `tol` of its ends — `evaluate` snaps
+    parameters to knots within the tolerance BEFORE its range test, so without it a parameter of the domain can be
+    snapped outside and rejected; it holds for every clamped knot vector at any tolerance
+    (`Basis.SnapSafe.of_knots_in_domain`), and `C10_evaluable_at_knots` needs no such hypothesis.  The VALUES are
+    property C02's business (`C02_tensor_eval_obj_*`, `C02_rational_*`). -/
+theorem C10_evaluable_on_domain [IsStrictOrderedRing K] [FloorRing K] {o : Obj K} (h : o.WellFormed) (tol : K)
+    (params : List (List K)) (hlen : params.length = o.bases.size)
+    (hdom : ∀ d, d < o.bases.size → (o.basis d).periodic = -1 →
+      ∀ t ∈ params.getD d [], (o.basis d).start ≤ t ∧ t ≤ (o.basis d).stop)
+    (hsnap : ∀ d, d < o.bases.size → (o.basis d).periodic = -1 → (o.basis d).SnapSafe tol)
+    (hne : ∀ d, d < o.bases.size → (o.basis d).periodic = -1 → params.getD d [] ≠ []) :
+    ∃ res, o.evaluate tol params true = .ok res ∧
+      res.shape = params.map List.length ++ [o.dimension] ∧ res.data.size = Tensor.prod res.shape :=
+  h.evaluable tol params hlen hdom hsnap hne
+
+/-- Evaluation at knots of the domain (in particular at the corners `start`, `end`): no hypothesis on the tolerance. -/
+theorem C10_evaluable_at_knots [IsStrictOrderedRing K] [FloorRing K] {o : Obj K} (h : o.WellFormed) (tol : K)
+    (params : List (List K)) (hlen : params.length = o.bases.size)
+    (hdom : ∀ d, d < o.bases.size → (o.basis d).periodic = -1 → ∀ t ∈ params.getD d [],
+      (∃ k, k < (o.basis d).knots.size ∧ t = (o.basis d).kn k) ∧
+      (o.basis d).start ≤ t ∧ t ≤ (o.basis d).stop)
+    (hne : ∀ d, d < o.bases.size → (o.basis d).periodic = -1 → params.getD d [] ≠ []) :
+    ∃ res, o.evaluate tol params true = .ok res ∧
+      res.shape = params.map List.length ++ [o.dimension] ∧ res.data.size = Tensor.prod res.shape :=
+  h.evaluable_at_knots tol params hlen hdom hne
 
 /-! ## The basis constructor -/
 
@@ -493,3 +593,35 @@ example : Basis.mk? 2 #[(0 : ℚ), 0, 1] (-1) C10_tol = .error .value :=
 
 example : Basis.mk? 2 #[(0 : ℚ), 1, 1/2, 2] (-1) C10_tol = .error .value :=
   (C10_constructor_rejects 2 _ _ _).2 (Or.inr (Or.inr (Or.inr ⟨1, by decide, by norm_num [C10_tol]⟩)))
+
+/-- `C10_accessors_consistent`, `C10_reconstructible`, `C10_evaluable_at_knots` on the concrete rational curve
+    (6 control points; evaluation at the corners `start = 0`, `end = 3` and at the double knot `2`). -/
+example : C10_exCurve.getFlat (-1) = C10_exCurve.getFlat 5 :=
+  ((C10_accessors_consistent C10_exCurve_wf).2.1 5 (by decide)).2.2.2.2.2.2.1
+
+example : ∃ o', Obj.construct C10_exCurve.bases C10_exCurve.cps C10_exCurve.rational = .ok o' ∧ o' = C10_exCurve :=
+  let ⟨o', h1, h2, _⟩ := (C10_reconstructible C10_exCurve_wf).1
+  ⟨o', h1, h2⟩
+
+example : ∃ res, C10_exCurve.evaluate C10_tol [[0, 2, 3]] true = .ok res ∧ res.shape = [3, 2] := by
+  obtain ⟨res, h1, h2, _⟩ := C10_evaluable_at_knots C10_exCurve_wf C10_tol [[0, 2, 3]] rfl (by
+    intro d hd _ t ht
+    have hd0 : d = 0 := by
+      have : d < 1 := hd
+      omega
+    subst hd0
+    have hb : C10_exCurve.basis 0 = ⟨3, #[0, 0, 0, 1, 2, 2, 3, 3, 3], -1⟩ := rfl
+    rw [hb]
+    simp only [List.getD_cons_zero, List.mem_cons, List.not_mem_nil, or_false] at ht
+    rcases ht with rfl | rfl | rfl
+    · exact ⟨⟨0, by decide, by norm_num [Basis.kn]⟩, by norm_num [Basis.start, Basis.kn], by norm_num [Basis.stop, Basis.kn]⟩
+    · exact ⟨⟨4, by decide, by norm_num [Basis.kn]⟩, by norm_num [Basis.start, Basis.kn], by norm_num [Basis.stop, Basis.kn]⟩
+    · exact ⟨⟨8, by decide, by norm_num [Basis.kn]⟩, by norm_num [Basis.start, Basis.kn], by norm_num [Basis.stop, Basis.kn]⟩)
+    (by
+      intro d hd _
+      have hd0 : d = 0 := by
+        have : d < 1 := hd
+        omega
+      subst hd0
+      simp)
+  exact ⟨res, h1, h2⟩
